@@ -371,6 +371,17 @@ def denoted_plain(hist, target):
     return None
 
 
+def denoted_qualified(hist, target):
+    """(revision, branch revision) for an absolute target `<branch>@<full revision id>`; None for every other spelling"""
+    if target.count("@") != 1:
+        return None
+    q, r = target.split("@")
+    if r not in [x["id"] for x in hist] or any(ch in r for ch in "+-"):
+        return None
+    b = denoted_plain(hist, q)
+    return None if b is None else (r, b)
+
+
 def judge(ctx, focus, collected, sds):
     """correspondence + Lean spec checkers on the implementation's output"""
     spec_ops = []
@@ -430,6 +441,14 @@ def judge(ctx, focus, collected, sds):
                 ctx.fail(inp, "refused-target: upgrade %r is refused as unresolvable although it denotes exactly revision %r; "
                               "the plan of the missing revisions is %s" % (tgt, d, [s_["rev"] for s_ in model["steps"]]),
                          impl=impl, tags=["refused", "partial-id"])
+        elif focus.prop == "C02" and impl.get("err") == "resolution" and model.get("steps") and isinstance(tgt, str) \
+                and denoted_qualified(c["revs"], tgt) is not None:
+            # `error iff the set is empty and T is not a current head`: the absolute target `<branch>@<revision id>` names
+            # a revision of the history and a branch (decided from the history alone), revisions above it are applied
+            # (the proved model removes them) - and the command refuses the target as unknown
+            ctx.fail(inp, "refused-target: downgrade %r is refused as unresolvable although it names revision %r and branch %r; "
+                          "the revisions to remove are %s" % ((tgt,) + denoted_qualified(c["revs"], tgt) + ([s_["rev"] for s_ in model["steps"]],)),
+                     impl=impl, tags=["refused", "qualified"])
         elif focus.prop == "C02":
             pt = parse_impl_downgrade_target(sd, c["rows"], c["target"])
             if pt is not None and not names_a_branch(c["target"]):
